@@ -73,7 +73,7 @@ func cmdVerify(args []string) {
 		for _, ob := range u.em.obls {
 			ok := ob.Result == "unsat"
 			if ob.Kind == "vacuity" {
-				ok = ob.Result != "unsat"
+				ok = ob.Result != "unsat" || strings.Contains(ob.Name, "#vacuity#return")
 			}
 			mark := "ok  "
 			if !ok {
